@@ -31,6 +31,31 @@ CLAIMS = {
          "Lean 4 proof (case analysis + omega over Int/Nat) + differential correspondence"),
 }
 
+CLAIMS.update({
+ "C03": ("Proved for the world model: every ledger primitive, every message of the dispatcher tree and every transaction of every kind conserves the total collateral (Dispatch.exec_total / applyTx_total / step_total, induction over the dispatcher's fuel); "
+         "frames show that vAMM messages move no collateral. The recipient clauses are evaluated by Spec.C03 on every transaction of generated histories (balances of all accounts decoded before/after, transfer events) and the model's transfer log is compared with the implementation's.",
+         "Permitted-recipient clause is checked on the implementation and by model correspondence; its world-level theorem is in progress (WorldInv).",
+         "Lean 4 proof (mutual induction over the dispatcher model) + Spec on implementation observations + correspondence"),
+ "C08": ("Proved for the dispatcher model: the engine's reply turns every reported failure into a failure, a failing sub-message with ReplyOn Always/Error fails the engine's response and with Never/Success fails any contract's response, and a successful response implies success of each sub-message, its reply and everything that reply dispatched (Dispatch.replyErr_is_error, execSubs_head_error(_never), execSubs_cons_ok). "
+         "Spec.C08 checks on every transaction of generated histories that a failed call leaves all decoded storage and balances unchanged and that no tmp-swap / sent-funds / tmp-liquidator record remains.",
+         "Transaction atomicity itself is the host's (cw-multi-test) behaviour, stated as an assumption; single-fault injection at every sub-message is being added to the harness.",
+         "Lean 4 proof + Spec on full storage dumps"),
+ "C09": ("Role theorems proved for the vAMM (swaps/settlement only by the engine, config/owner only by the owner, set_open only by owner or insurance fund, transfer of ownership moves the right) and the price feed; engine / insurance fund / fee pool role theorems are in EngineGuards. "
+         "Spec.C09 evaluates every execute variant of all five contracts by every kind of sender on generated histories: an accepted privileged call must come from the role holder of the pre-state, and ownership transfers must take effect.",
+         "The mock feed has no access control by design (fixture); claimed for the repository's margined_pricefeed.",
+         "Lean 4 proof (guard inversion) + Spec on implementation observations + correspondence"),
+ "C11": ("vAMM half proved (settleFunding_spec: time guard, premium fraction = trunc((TWAP - oracle TWAP) * period / day), next funding time at least the buffer = half a period later, nothing else changes); engine half (payFundingReply_spec, calcRemainMargin_spec) in EngineMoney. "
+         "Spec.C11 checks schedule, formula, the single collateral movement and the per-action checkpoint/charge on generated histories; a defect found by it (funding skipped on reversal) was repaired.",
+         "Per-action exactly-once is stated on the checkpoint, not as a sum over history (truncation is not additive).",
+         "Lean 4 proof + Spec on implementation observations + correspondence"),
+ "C14": ("vAMM part proved (closed market rejects swaps and settlement; set_open only flips the flag for owner / insurance fund); engine guards (pause, require_vamm) and registry invariants in EngineGuards / WorldInv. Spec.C14 checks every engine operation against paused / closed / unregistered pre-states, registry shape, and shutdown outcome on generated histories.",
+         "Known finding C14-F5: ShutdownVamms reverts when a registered vAMM is already closed (pinned by an existing test), reported as KNOWN-FINDING.",
+         "Lean 4 proof (guard inversion) + Spec on implementation observations + correspondence"),
+ "C20": ("vAMM half proved for every update sequence (run_configOK: ratios within [0,1], TWAP interval within [1 min, 1 week] after instantiate and after any accepted call); engine half (updateConfig_configOK, caps, registry) in EngineGuards. Spec.C20 checks bounds after every transaction and caps after every position-increasing trade.",
+         "",
+         "Lean 4 proof (invariant over call lists) + Spec on implementation observations + correspondence"),
+})
+
 NOT_YET = "not claimed in this commit: world-level model/theorems under construction (DESIGN.md §8 build order)"
 
 def chk(pid, text, note, tech):
